@@ -32,7 +32,7 @@ type c11Case struct {
 	Pi    []int `json:"scripted_order"` // scripted completion order of the chunk goroutines
 	Files []int `json:"file_requests"`  // request indices that carry an upload
 	Fail  []int `json:"failing_ids"`    // an HTTP call containing one of these request ids fails
-	Kind  int   `json:"fail_kind"`      // 0 transport error, 1 status 500, 2 GraphQL errors in answer
+	Kind  int   `json:"fail_kind"`      // 0 transport error, 1 status 500, 2 GraphQL errors in answer, 3 an errors list holding only null
 	// Overlap: no scripted order — every call is answered at once and closing a response body takes a moment, so
 	// that calls overlap between reading and decoding their answers; SingleP runs the case on one processor
 	Overlap bool `json:"overlapping_calls,omitempty"`
@@ -167,6 +167,10 @@ func (g *gateRT) RoundTrip(r *http.Request) (*http.Response, error) {
 		out[i] = ans{Data: map[string]interface{}{"echo": id}}
 		if fail {
 			out[i].Errors = []map[string]interface{}{{"message": "svc error"}}
+			if g.c.Kind == 3 {
+				out[i].Errors = []map[string]interface{}{nil}
+				out[i].Data = nil
+			}
 		}
 	}
 	var b []byte
@@ -406,7 +410,7 @@ func driveC11(seed int64, tier string, out string, replay string) {
 				if rng.Intn(4) == 0 {
 					c.Fail = append(c.Fail, rng.Intn(n))
 				}
-				c.Kind = rng.Intn(3)
+				c.Kind = rng.Intn(4)
 			}
 			cases = append(cases, c)
 		}
